@@ -170,6 +170,24 @@ fn domain_constants(seed: u64) -> [[u8; 32]; 7] {
     for (i, o) in out.iter_mut().enumerate() {
         *o = sha(&[b"domain", &seed.to_le_bytes(), &[i as u8]]);
     }
+    // one run in four gets constants with structure that uniformly random ones never have:
+    // two opcodes sharing a constant, constants differing in one byte only, all-zero / all-ones
+    let a = ((seed >> 8) % 7) as usize;
+    let b = (a + 1 + ((seed >> 16) % 6) as usize) % 7;
+    match seed % 20 {
+        0 => out[a] = out[b],
+        1 => out[a] = [0u8; 32],
+        2 => {
+            out[a] = out[b];
+            out[a][31] ^= 1;
+        }
+        3 => {
+            out[a] = out[b];
+            out[a][0] ^= 0x80;
+        }
+        4 => out[a] = [0xffu8; 32],
+        _ => {}
+    }
     out
 }
 
@@ -1050,6 +1068,17 @@ impl C05 {
     }
 }
 
+/// class boundaries three times out of four, otherwise a value of uniformly random bit length
+/// (bytes like 0x80ff or 0xff00 inside a class, where a sign byte is or is not needed)
+fn pick_amount(rng: &mut Rng) -> u64 {
+    if rng.chance(3, 4) {
+        *rng.pick(&AMOUNTS)
+    } else {
+        let shift = rng.below(64);
+        rng.next_u64() >> shift
+    }
+}
+
 const AMOUNTS: [u64; 18] = [
     0,
     1,
@@ -1116,7 +1145,7 @@ fn gen_bundle(rng: &mut Rng, parent_counter: &mut u64, tamper_pct: u64, d: &[[u8
     if ops.is_empty() {
         ops.push(50);
     }
-    let shared_amount = *rng.pick(&AMOUNTS);
+    let shared_amount = pick_amount(rng);
     for _ in 0..nspends {
         *parent_counter += 1;
         let nconds = match rng.below(80) {
@@ -1143,7 +1172,7 @@ fn gen_bundle(rng: &mut Rng, parent_counter: &mut u64, tamper_pct: u64, d: &[[u8
             };
             conds.push(CondSpec { opcode: *rng.pick(&ops), key, msg: hex::encode(gen_msg(rng, d)), extra_args: if rng.chance(1, 15) { 1 + rng.below(2) as u8 } else { 0 } });
         }
-        let amount = if rng.chance(1, 3) { shared_amount } else { *rng.pick(&AMOUNTS) };
+        let amount = if rng.chance(1, 3) { shared_amount } else { pick_amount(rng) };
         // sometimes the same parent as the previous spend, with a different amount
         let parent_seed = match spends.last() {
             Some(prev) if rng.chance(1, 8) => {
@@ -1176,7 +1205,7 @@ fn gen_bundle(rng: &mut Rng, parent_counter: &mut u64, tamper_pct: u64, d: &[[u8
             2 => Tamper::FlipMsgByte { cond, pos: rng.below(64) as u16 },
             3 => Tamper::SwapKey { cond, key: KeySpec::Pool(3 + rng.below(3) as u8) },
             4 => Tamper::SwapKey { cond, key: if rng.chance(1, 2) { KeySpec::Infinity } else { KeySpec::Garbage(rng.below(256)) } },
-            5 | 6 => Tamper::ChangeAmount { spend: rng.below(nspends as u64) as u8, amount: *rng.pick(&AMOUNTS) },
+            5 | 6 => Tamper::ChangeAmount { spend: rng.below(nspends as u64) as u8, amount: pick_amount(rng) },
             7 => Tamper::ChangeParent { spend: rng.below(nspends as u64) as u8 },
             8 => Tamper::SwapOpcode { cond, opcode: 43 + rng.below(8) as u8 },
             9 => Tamper::WrongDomain { cond, opcode: 43 + rng.below(8) as u8 },
@@ -1290,7 +1319,7 @@ impl Engine for C05 {
                     for sp in twin.spends.iter_mut() {
                         pc += 1;
                         sp.parent_seed = pc;
-                        sp.amount = *rng.pick(&AMOUNTS);
+                        sp.amount = pick_amount(rng);
                     }
                 }
             }
